@@ -90,9 +90,15 @@ def cbool(b) -> str:
     return "true" if b else "false"
 
 
+CHUNK_IN = 256    # bytes per chunk in input literals
+CHUNK_OUT = 512   # must equal the chunk size of Base/Sx.v sx_b
+
+
 def cbytes(b: bytes) -> str:
-    """(length, big-endian integer) — expanded on the Coq side with bytes_of"""
-    return f"({len(b)}, {cz(int.from_bytes(b, 'big'))})"
+    """list of (length, big-endian integer) chunks — expanded on the Coq side with bytes_of"""
+    b = bytes(b)
+    return "[" + "; ".join(f"({len(b[i:i + CHUNK_IN])}, {cz(int.from_bytes(b[i:i + CHUNK_IN], 'big'))})"
+                           for i in range(0, len(b), CHUNK_IN)) + "]"
 
 
 def clist(items) -> str:
@@ -129,7 +135,9 @@ def sx(o) -> str:
     if isinstance(o, int):
         return f"I {cz(o)}"
     if isinstance(o, (bytes, bytearray)):
-        return f"L [I {len(o)}; I {cz(int.from_bytes(bytes(o), 'big'))}]"
+        o = bytes(o)
+        vals = [cz(int.from_bytes(o[i:i + CHUNK_OUT], "big")) for i in range(0, len(o), CHUNK_OUT)] or ["0"]
+        return f"L [I {len(o)}; " + "; ".join("I " + v for v in vals) + "]"
     if isinstance(o, (list, tuple)):
         return "L [" + "; ".join(sx(x) for x in o) + "]"
     if isinstance(o, Err):
@@ -249,9 +257,10 @@ def run_shards(prop_id, header, model, ok, input_type, cases, shard=300, timeout
     for k in range(0, len(cases), shard):
         chunk = cases[k:k + shard]
         f = CASES / f"{prop_id}_s{k // shard}.v"
-        lines = [header, "Open Scope Z_scope.", f"Definition cases : list (({input_type}) * sx) := ["]
-        lines.append(";\n".join(f" ({i}, {o})" for i, o in chunk))
-        lines.append("].")
+        lines = [header, "Open Scope Z_scope."]
+        for j, (i, o) in enumerate(chunk):
+            lines.append(f"Definition c{j} : ({input_type}) * sx := ({i}, {o}).")
+        lines.append(f"Definition cases : list (({input_type}) * sx) := [" + "; ".join(f"c{j}" for j in range(len(chunk))) + "].")
         lines.append(f"Eval vm_compute in (mismatches {model} {ok} cases).")
         f.write_text("\n".join(lines) + "\n")
         files.append((k, f))
